@@ -354,9 +354,19 @@ def check_rows_against_reference(df, sig, fs, f_range, center, fek, where):
                   % (where, len(C), exp_rows))
         return
     if C != p[1:] or L != t[:-1] or N != t[1:]:
-        violation('C01', 'rows-are-not-the-cycles',
-                  '%s: centres %s... reference %s...; sides %s... reference %s...'
-                  % (where, C[:4], p[1:5], L[:4], t[:4]))
+        if info.get('alt') is not None:
+            ap, at = info['alt']
+            if C == ap[1:] and L == at[:-1] and N == at[1:]:
+                count('C01:zero_sample_other_convention_accepted')
+                return
+        for name, got, ref in (('centre', C, p[1:]), ('last side', L, t[:-1]), ('next side', N, t[1:])):
+            i = refs.first_diff(got, ref)
+            if i is not None:
+                violation('C01', 'rows-are-not-the-cycles',
+                          '%s: %s extremum of row %d is %s, the half-wave reference has %s (rows %d..: %s, reference %s)'
+                          % (where, name, i, got[i] if i < len(got) else None, ref[i] if i < len(ref) else None,
+                             max(0, i - 1), got[max(0, i - 1):i + 2], ref[max(0, i - 1):i + 2]))
+                return
 
 
 def check_shape(df, sig, fs, f_range, n_cycles, where, with_band_amp=True):
